@@ -131,6 +131,10 @@ Definition model_bat (slack min max : Z) (evs : list tbev) : list (list Z) * lis
   let '(st, started) := brun_log slack min max evs (b_init, O) [] in
   (started, map (fun p : nat * bool => (Z.of_nat (fst p), if snd p then 1 else 0)) (b_fired st)).
 
+(* the specification's verdict on the error of request i's callback (Model.erun), for the same history *)
+Definition spec_err (slack min max : Z) (evs : list tbev) (i : Z) : Z :=
+  if snd (erun (lsplit slack max) lsizeof min (map bev_of evs)) (Z.to_nat i) then 1 else 0.
+
 Definition pz_eqb (a b : Z * Z) : bool := Z.eqb (fst a) (fst b) && Z.eqb (snd a) (snd b).
 
 (* ---- check_case -------------------------------------------------------------------------------- *)
@@ -142,7 +146,9 @@ Definition check_case (c : ccase) : bool :=
   | CCfg ft mn mx ok => Bool.eqb (batch_cfg_valid ft mn mx) ok
   | CBat mn mx sl evs bs fired =>
     let '(mb, mf) := model_bat sl mn mx evs in
-    list_eqb lz_eqb mb bs && list_eqb pz_eqb mf fired
+    list_eqb lz_eqb mb bs && list_eqb pz_eqb mf fired &&
+    (* every OnDone the IMPLEMENTATION made carries the error the specification demands *)
+    forallb (fun p => Z.eqb (snd p) (spec_err sl mn mx evs (fst p))) fired
   end.
 
 (* model output, for replay files *)
